@@ -12,7 +12,7 @@ Opt(s) == IF s = None THEN <<>> ELSE <<s>>
 \* ---- scope family (C02): a toplevel prelude, one block with up to MaxItems items (statements, bare expressions,
 \* nested named/unnamed blocks holding one item), a trailing print
 E0 == { L1, Id("x"), Id("y"), Asg("x", L2), Bin("+", Id("x"), L1), Bin("+", Par(Asg("y", L2)), Id("x")), Id("TYPE"),
-        Asg("x", Bin("+", Id("x"), L1)), Bin("+", Asg("f", L2), Id("f")) }
+        Asg("x", Bin("+", Id("x"), L1)), Bin("+", Asg("f", L2), Id("f")), Asg("x", Asg("f", Asg("y", Bin("+", Id("x"), L1)))) }   \* x = f = y = x + 1
 S0 == { SVar("x", FALSE, NoE), SVar("y", FALSE, NoE) } \cup { SVar(n, TRUE, e) : n \in {"x", "y"}, e \in E0 }
         \cup { SPrint(e) : e \in E0 } \cup { SEval(e) : e \in {Asg("x", L2), Asg("y", Bin("+", Id("x"), L1))} }
 InB == S0 \cup { SExpr(e) : e \in E0 }
@@ -40,6 +40,7 @@ BBodies == { <<>>, <<FA>>, <<FA, FB>>, <<GT>>, <<GN>>, <<VX, GX>>, <<Child("")>>
              <<SDef("c", "n", <<Child0("")>>), SDef("c", "m", <<SDef("a", "", <<FA>>)>>)>>,
              <<SExpr(Asg("TYPE", L1)), GT>>, <<SExpr(Asg("NAME", L2)), GN, SDef("c", "n", <<GN, GT>>)>> }   \* fields named TYPE / NAME never shadow the built-ins
 TopB == { SDef(t, nm, b) : t \in {"a", "b"}, nm \in {"", "n"}, b \in BBodies } \cup { Boom, SPrint(L1), SBind("b", "last", "struct"), SBind("a", "all", "slice") }
+        \cup { SDef("a", "Q", <<GN>>), SDef("b", "H", <<GN, Child("Q")>>), SDef("a", "n", <<Child("Q"), Child("Q")>>) }   \* names whose literals need escapes
 
 \* ---- bind family (C04)
 BDef == { SDef(t, nm, <<SExpr(Asg("f", L1))>>) : t \in {"a", "b"}, nm \in {"", "n"} }
